@@ -363,6 +363,12 @@ VARIANTS = [
     V("c13-sync-copies-async-reset-rule", {"C13": "R1"}, edits=[
         (S, "                processed += 1\n                if processed > limit:\n", "                processed = 0\n                if processed > limit:\n")],
       note="the drain counter no longer counts"),
+    V("silent-rename-reentrancy-flag", silent=["C01", "C04", "C13", "C05"], edits=[
+        (S, "_is_processing", "_draining")], note="the sync re-entrancy flag renamed everywhere"),
+    V("silent-status-tuple-as-constant", silent=["C10", "C14", "C04"], edits=[
+        (I, "_ACTOR_POLL_INTERVAL = 0.005\n", "_ACTOR_POLL_INTERVAL = 0.005\n_NOT_LIVE = ('stopped', 'done', 'error')\n"),
+        (I, "        if self.status in ('stopped', 'done', 'error'):\n", "        if self.status in _NOT_LIVE:\n")],
+      note="send()/send_events() test the status against a module constant"),
     V("silent-memo-keyed-by-guard-object-identity", silent=["C02"], edits=[
         (B, "            key = id(transition)\n", "            key = (id(transition), 0)\n")]),
     V("silent-enqueue-helper", silent=["C10", "C14", "C04"], edits=[
